@@ -1,11 +1,60 @@
 (* C33/Properties.v — property C33: network message decoders withstand arbitrary peer input.
-   Only statements, each closed by `exact <lemma>`, with Print Assumptions beneath. *)
+   Only statements, each closed by `exact <lemma>`, with Print Assumptions beneath.
+
+   The SCALE-based decoders are Scale.Codec.decode (the model of pkg/scale, tied to the code by
+   C11/C12 and by the C33 harnesses) at the message schemas of C33/Model.v:
+   schemas = [s_bam; s_bah; s_txm; s_body; s_ghs; s_gmsg; s_warp; s_lreq; s_lresp; s_header]. *)
 From Common Require Import Bytes Outcome.
-From Scale Require Import Compact Types Spec Codec.
+From Scale Require Import Compact Types Spec Codec Total Cost.
 From C33 Require Import Model Proofs.
 Local Open Scope N_scope.
 
-(* every message schema is a well-formed SCALE shape (so the theorems of Scale apply to it) *)
 Theorem C33_schemas_wf : forallb wf_ty schemas = true.
 Proof. exact schemas_wf. Qed.
 Print Assumptions C33_schemas_wf.
+
+(* every decoder returns a message or an error, for every byte string: never a panic, never a
+   non-terminating loop *)
+Theorem C33_total : forall t bs, In t schemas ->
+  decode_res current t bs <> Panic /\ decode_res current t bs <> OutOfFuel.
+Proof. exact total_schemas. Qed.
+Print Assumptions C33_total.
+
+Theorem C33_total_body : forall bs,
+  fst (dec_body current bs) <> Panic /\ fst (dec_body current bs) <> OutOfFuel.
+Proof. exact total_body. Qed.
+Print Assumptions C33_total_body.
+
+(* steps and allocation (the model's meter counts both) linear in the input length, with the
+   repaired decodeBytes ... *)
+Theorem C33_cost_ideal : forall t bs, In t schemas ->
+  decode_cost ideal t bs <= (ca t + cb t) * (1 + len bs).
+Proof. exact cost_schemas_ideal. Qed.
+Print Assumptions C33_cost_ideal.
+
+(* ... and on the current tree for the messages without byte-string fields: block announce
+   handshake, transactions, GRANDPA handshake and messages, warp sync request *)
+Theorem C33_cost_partial : forall t bs, In t bytes_free_schemas ->
+  decode_cost current t bs <= (ca t + cb t) * (1 + len bs).
+Proof. exact cost_schemas_current. Qed.
+Print Assumptions C33_cost_partial.
+
+Theorem C33_cost_constants : forallb (fun t => ca t + cb t <=? 54500) schemas = true.
+Proof. exact cost_constants. Qed.
+Print Assumptions C33_cost_constants.
+
+(* finding bytes-alloc: messages with byte-string fields have no such bound on the current tree *)
+Theorem C33_cost_refuted :
+  let bs := map n2b [2; 104; 34; 0; 84; 150; 141] in
+  decode_res current s_lreq bs = Err 1%nat /\ 500000 <= decode_cost current s_lreq bs /\
+  bytes_alloc s_lreq bs = true /\ decode_cost ideal s_lreq bs <= 5000.
+Proof. exact bytes_alloc_witness. Qed.
+Print Assumptions C33_cost_refuted.
+
+(* non-vacuity: a GRANDPA neighbour packet and a block announce handshake decode *)
+Example C33_nonvacuous :
+  decode_res current s_gmsg (map n2b [2; 1; 5; 0; 0; 0; 0; 0; 0; 0; 7; 0; 0; 0; 0; 0; 0; 0; 9; 0; 0; 0]) =
+    Ok (VEnum 2 (VEnum 1 (VList (VCons (VN 5) (VCons (VN 7) (VCons (VN 9) VNil))))), []) /\
+  decode_res current s_ghs [n2b 4] = Ok (VList (VCons (VN 4) VNil), []) /\
+  decode_res current s_gmsg [n2b 9] = Err 1%nat.
+Proof. vm_compute. repeat split; reflexivity. Qed.
